@@ -688,15 +688,36 @@ var delegSides = map[string][]func(ast.Expr) string{}
 
 // ruleArithMap: operator opcodes map to the Go operators, operands in order.
 func ruleArithMap(c *Ctx, r *Report, rule string) {
-	r.rule(rule, 19, "in binopNumeric/binopString/unopNumeric every `case opX` returns (left ⊕ right) with ⊕ the Go operator of X and the operands in (a, b) order, ints promoted with float64(); the VM passes (second-from-top, top) as (a, b)")
+	r.rule(rule, 10, "in binopNumeric/binopString/unopNumeric — and in the helper tables they hand their operands to — every `case opX` returns (left ⊕ right) with ⊕ the Go operator of X and the operands in (a, b) order, ints promoted with float64(); the VM passes (second-from-top, top) as (a, b)")
 	want := map[string]token.Token{"opEQ": token.EQL, "opLT": token.LSS, "opGT": token.GTR, "opADD": token.ADD, "opSUB": token.SUB, "opMUL": token.MUL, "opDIV": token.QUO}
 	ops := constsOfType(c.Bcl, "opcode")
+	type workItem struct {
+		name string
+		fd   *ast.FuncDecl
+	}
+	var work []workItem
+	queued := map[*ast.FuncDecl]bool{}
 	for _, fnName := range []string{"binopNumeric", "binopString", "unopNumeric"} {
 		_, fd := c.find(fnName)
 		if fd == nil {
 			r.bad(rule, fnName, "function not found", "")
 			continue
 		}
+		work = append(work, workItem{fnName, fd})
+		queued[fd] = true
+	}
+	hasOpSwitch := func(fd *ast.FuncDecl) bool {
+		found := false
+		ast.Inspect(fd.Body, func(n ast.Node) bool {
+			if sw, ok := n.(*ast.SwitchStmt); ok && sw.Tag != nil && isNamed(c.typeOf(sw.Tag), bclPath, "opcode") {
+				found = true
+			}
+			return !found
+		})
+		return found
+	}
+	for wi := 0; wi < len(work); wi++ {
+		fnName, fd := work[wi].name, work[wi].fd
 		r.fn(fnName)
 		// side of each variable: "a" or "b"
 		side := map[types.Object]string{}
@@ -794,6 +815,33 @@ func ruleArithMap(c *Ctx, r *Report, rule string) {
 				}
 			}
 			return true
+		})
+		// helper tables: a function of the module with an operator switch of its own, handed (op, a, b)
+		nh := 0
+		walkCalls(fd.Body, false, func(call *ast.CallExpr) {
+			fn, ok := c.callee(call).(*types.Func)
+			if !ok || fn.Pkg() == nil || fn.Pkg().Path() != bclPath {
+				return
+			}
+			if o := fn.Origin(); o != nil {
+				fn = o
+			}
+			hd := c.funcDecls[fn]
+			if hd == nil || hd == fd || hd.Body == nil || !hasOpSwitch(hd) {
+				return
+			}
+			nh++
+			okc := len(call.Args) >= 2 && c.isObj(call.Args[0], c.paramObj(fd, 0))
+			for i := 1; i < len(call.Args) && okc; i++ {
+				if i > 2 || sideOf(call.Args[i]) != []string{"a", "b"}[i-1] {
+					okc = false
+				}
+			}
+			r.check(okc, rule, fmt.Sprintf("%s/helper#%d", fnName, nh), "same operator, operands in (a, b) order", fnName+" hands its operands to "+fn.Name()+" with a changed operator or swapped operands", c.pos(call.Pos()))
+			if !queued[hd] {
+				queued[hd] = true
+				work = append(work, workItem{fn.Name(), hd})
+			}
 		})
 	}
 	// a branch that delegates to the function itself (e.g. int op float -> float op float) must keep operator and operand order
